@@ -84,7 +84,7 @@ def corpus():
     out.append(_case(U_A, [2], [["fetch", 4, False, "push"], ["commit", 5]], stacked=False))   # unstacked: accepted
     out.append(_case(U_M, [1], [["commit", 2], ["commit", 3], ["fetch", 4, False, "pull"], ["commit", 5], ["commit", 6]]))
     out.append(_case(U_M, [2], [["fetch", 5, True, "fetch"], ["fetch", 6, False, "pull"]], sf="pack-0.92"))
-    out.append(_case(U_M, [3], [["commit", 5]]))       # parent r4 is not visible ... r4's parents are: commit r4 first
+    out.append(_case(U_M, [2], [["commit", 4], ["fetch", 0, False, "all"]], tv="smart"))
     return [c for c in out if _legal(c)]
 
 
@@ -99,6 +99,8 @@ def _simulate(case):
         if op[0] == "commit":
             if not (case.get("fb") and any(p >= n for p in g[op[1]])):
                 vis.add(op[1])
+        elif op[3] == "all":
+            vis |= set(range(n))
         elif op[1] < n:
             vis |= C.anc_present(g, set(), [op[1]])
     return out
@@ -138,8 +140,10 @@ def _random_case(rng, u):
             fg = rng.random() < 0.35
             if daglib.lefthand_present(g, r) and rng.random() < 0.55:
                 entry, fg = rng.choice(["pull", "push"]), False
+            elif rng.random() < 0.12:
+                entry = "all"
             ops.append(["fetch", r, fg, entry])
-            vis |= C.anc_present(g, set(), [r])
+            vis |= set(range(n)) if entry == "all" else C.anc_present(g, set(), [r])
     return _case(u, fb, ops, sf, sv, tv, stacked)
 
 
@@ -224,6 +228,8 @@ def oracle(case, obs):
             bad.append("step %d: text_bad %r" % (k, so["text_bad"][:3]))
         if so["sig_bad"]:
             bad.append("step %d: sig_bad %r" % (k, so["sig_bad"][:5]))
+        if so["dup"]:
+            bad.append("step %d: records stored twice %r" % (k, so["dup"]))
         if so["textparents_bad"]:
             bad.append("step %d: textparents_bad %r" % (k, so["textparents_bad"][:3]))
         if so["check"]:
@@ -269,7 +275,7 @@ def distribution(inputs, observations):
         inc("via %s->%s" % (c["src_via"], c["tgt_via"]))
         inc("ops %d" % len(c["ops"]))
         for k, op in enumerate(c["ops"]):
-            nm = "commit" if op[0] == "commit" else "%s%s" % (op[3], " find_ghosts" if op[2] else "")
+            nm = "commit" if op[0] == "commit" else "%s%s" % (op[3], " find_ghosts" if op[2] and op[3] != "all" else "")
             inc("op " + nm)
             if isinstance(o, dict):
                 inc("%s -> %s" % ("commit" if op[0] == "commit" else "fetch", o["model"]["steps"][k][0]))
